@@ -3,6 +3,26 @@
 import json, sys
 
 CHECKS = {
+ "C01": ("runtime monitor: library score vs exhaustive lattice-image overlap oracle on uniform, contact-bisected and optimiser-produced states (Spy) and CLI output files",
+         "Exploration: ~6M (quick) / ~200M (thorough) states - uniform, boundary-focused states bisected to first contact and probed just inside it, every stage result and sampled evaluations of real optimiser pipelines observed through a Spy state, and the CLI's JSON files - are re-examined by an oracle that enumerates every lattice image that can be within reach (from cell heights) and measures penetration by separating axes / disc distance; witnesses are re-confirmed by polygon clipping. Held on the states produced; the thin failing region is sampled, not covered.",
+         "Placements are read from cartesian_positions() (their correctness is C04/C14/C15). Convex polygons and unions of discs only.",
+         "DESIGN.md 5 C01"),
+ "C02": ("differential runtime monitor: Shape::area / Cell2::area / State::score vs shoelace, exact union-of-discs (Green's theorem, grid self-tested) and |A x B| on oracle-valid packings",
+         "Exploration: ~0.25M (quick) / ~25M (thorough) shapes and ~0.1M / ~4M oracle-valid states (as generated and shrunk to first contact); score must equal copies x true area / cell area to 1e-9 and stay <= 1. One open known finding (three discs sharing a point) is reported as KNOWN-FINDING, any other disagreement is a violation.",
+         "The union-area oracle is checked against a 1200x1200 grid count at start-up (a disagreement makes the run inconclusive).",
+         "DESIGN.md 5 C02"),
+ "C04": ("runtime monitor: placed point sets of hard and LJ states, incl. after chained optimisation via clone(), mapped by every ITA operation in Cartesian form",
+         "Exploration: ~0.3M (quick) / ~25M (thorough) states with chiral test shapes (handedness-sensitive) and the CLI's shapes, plus thousands of states after 1-3 chained optimisation stages read back through JSON; every operation must be orthogonal for the current cell and map the set of placed shapes onto itself modulo the lattice.",
+         "Trusts the ITA table (C16) and the lattice model; placements are taken from cartesian_positions().",
+         "DESIGN.md 5 C04"),
+ "C12": ("differential runtime monitor: Intersect::intersects (both argument orders, moved frames) vs separating-axis depth / centre distance, with constructed alignments",
+         "Exploration: ~2.5M (quick) / ~250M (thorough) placed pairs: random and constructed (coincident, parallel edges slid with face contact at 2 r_in(1 +- 1e-12..1e-3), shared vertex, vertex on edge, mirror images, disc contact) under identity / k pi/4 / far-from-origin / reflected frames. An answer is required only when |depth| > 1e-9.",
+         "Convex shapes only (SAT). Oracle depth is computed from the library-placed coordinates, which are themselves compared with the base geometry under the transform.",
+         "DESIGN.md 5 C12"),
+ "C13": ("differential runtime monitor: LJ2/LJShape2 energies vs the shifted truncated 12-6 law, symmetry, cutoff, rigid-motion invariance, golden-section minimum",
+         "Exploration: ~2M (quick) / ~200M (thorough) particle pairs over sigma, epsilon, cutoff, like and unlike pairs, distances log-uniform and within ulps of the cutoff, plus molecule-pair sums and the uncut minimum located on library values.",
+         "For unlike particles only symmetry, cutoff behaviour and distance-dependence are required (the property fixes no mixing rule).",
+         "DESIGN.md 5 C13"),
  # id: (technique, level text, level note, design_ref)
  "C14": ("differential runtime monitor: Cell2 public methods on JSON-deserialised cells vs independent lattice model",
          "Exploration: every Cell2 view (to_cartesian*, periodic_images as a set, area, centre, corners) is compared with A=(a,0), B=(b cos t, b sin t) on ~0.8M (quick) / ~100M (thorough) random and special cells, placements and shell counts. Holds on the executions produced; the real-number quantifier is sampled.",
